@@ -39,6 +39,18 @@ pub fn format_utc(secs: u64, nanos: u32, fmt: &str) -> String {
             Some('b') => out.push_str(MONTHS[(mo - 1) as usize]),
             Some('Z') => out.push_str("UTC"),
             Some('f') => out.push_str(&format!("{:09}", nanos)),
+            Some('s') => out.push_str(&format!("{}", secs)),
+            // %3f %6f %9f: that many digits, truncated; %.3f %.6f %.9f: the same after a dot
+            Some(n @ ('3' | '6' | '9')) if it.clone().next() == Some('f') => {
+                it.next();
+                out.push_str(&format!("{:09}", nanos)[..n.to_digit(10).unwrap() as usize]);
+            }
+            Some('.') if matches!(it.clone().next(), Some('3' | '6' | '9')) && it.clone().nth(1) == Some('f') => {
+                let n = it.next().unwrap().to_digit(10).unwrap() as usize;
+                it.next();
+                out.push('.');
+                out.push_str(&format!("{:09}", nanos)[..n]);
+            }
             Some('%') => out.push('%'),
             Some(o) => {
                 out.push('%');
